@@ -14,6 +14,7 @@ import (
 	"os"
 	"path/filepath"
 	"sort"
+	"strconv"
 	"strings"
 
 	"golang.org/x/tools/go/ast/astutil"
@@ -509,3 +510,7 @@ func readRepoFile(w *World, rel string) (string, error) {
 	b, err := os.ReadFile(filepath.Join(w.RepoDir, rel))
 	return string(b), err
 }
+
+type pkgT = *packages.Package
+
+func strconvUnquote(s string) (string, error) { return strconv.Unquote(s) }
